@@ -358,3 +358,29 @@ func lastResultAll(ret *ssa.Return, pred func(ssa.Value) bool) bool {
 	}
 	return true
 }
+
+// seeThroughCell: if v is a load of a local cell, return the value most recently stored to the
+// cell in the same block (defer-spilled named results), else v.
+func seeThroughCell(v ssa.Value) ssa.Value {
+	u, ok := v.(*ssa.UnOp)
+	if !ok || u.Op != token.MUL {
+		return v
+	}
+	a, ok := u.X.(*ssa.Alloc)
+	if !ok {
+		return v
+	}
+	b := u.Block()
+	pos := -1
+	for i, ins := range b.Instrs {
+		if ins == ssa.Instruction(u) {
+			pos = i
+		}
+	}
+	for i := pos - 1; i >= 0; i-- {
+		if st, ok := b.Instrs[i].(*ssa.Store); ok && st.Addr == ssa.Value(a) {
+			return st.Val
+		}
+	}
+	return v
+}
